@@ -28,8 +28,8 @@ ASSUMPTIONS = [
     "for mixed-type sequences only the laws are checked, not a particular inferred dtype",
 ]
 BOUND = {
-    "quick": "sequences of length 0..3 over 31 scalars; explicit dtypes for homogeneous sequences; equal() relation over all pairs of vectors of length <= 2 built from 14 scalars",
-    "thorough": "sequences of length 0..4 over 31 scalars; equal() relation over all pairs of vectors of length <= 2 built from all 31 scalars (vectors reported equal must also hold == values position by position)",
+    "quick": "sequences of length 0..3 over 31 scalars; explicit dtypes for homogeneous sequences; equal() relation over all pairs of vectors of length <= 2 built from 14 scalars; the laws that hold for any vector also on 14 derived vectors (as_* conversions, copy, reversed, concat, head, unique, sort, fancy index) of every constructed vector of length <= 3",
+    "thorough": "sequences of length 0..4 over 31 scalars; equal() relation over all pairs of vectors of length <= 2 built from all 31 scalars (vectors reported equal must also hold == values position by position); derived vectors as in quick",
 }
 TIME_CAP = {"quick": 240, "thorough": 3000}
 
@@ -54,6 +54,7 @@ class Aloof:
         return "<Aloof>"
 
 
+DERIVED_MAXLEN = 3
 INST = Inst()
 ALOOF = Aloof()
 DICT = {"k": 1}
@@ -384,6 +385,76 @@ def laws(v, names, seq, rec, one, homog):
     return (str(v.dtype), tuple(fl))
 
 
+DERIVED_ROUTES = ["as_object", "as_string", "as_float", "as_integer", "as_boolean", "as_date", "as_datetime", "copy", "reversed", "concat_self",
+                  "head", "unique", "sort", "fancy"]
+
+
+def derive(v, route):
+    if route == "reversed":
+        return v[::-1]
+    if route == "concat_self":
+        return v.concat(v)
+    if route == "head":
+        return v.head(1)
+    if route == "fancy":
+        return v[np.arange(len(v))[::-1]]
+    return getattr(v, route)()
+
+
+def derived_laws(v, case, rec):
+    """The laws that the statement gives for ANY vector, on vectors that are the product of a conversion or of another
+    Vector method applied to a constructed one (provenance): tolist has None exactly at the flagged positions and no
+    NaN / NaT anywhere, rebuilding from tolist + dtype gives an equal vector, equal is reflexive, drop_na and
+    replace_na act on exactly the flagged positions."""
+    for route in DERIVED_ROUTES:
+        try:
+            d = derive(v, route)
+        except Exception:
+            rec.count("derivations_refused")
+            continue
+        one = dict(case, derived=route)
+        rec.trans()
+        if not isinstance(d, Vector) or d.ndim != 1:
+            rec.violation(route, "shape", one, f"type {type(d).__name__} shape {getattr(d, 'shape', None)}")
+            return
+        if d.dtype == object and any(isinstance(x, (np.datetime64, np.timedelta64)) and np.isnat(x) for x in np.asarray(d)):
+            continue   # NaT scalar objects inside an object vector are outside the statement (as for constructed vectors)
+        if any(x is ALOOF for x in np.asarray(d).tolist()) if d.dtype == object else False:
+            continue
+        try:
+            fl = flagged(d)
+            tl = d.tolist()
+            if len(tl) != len(d) or any((t is None) != f for t, f in zip(tl, fl)):
+                rec.violation(route, "derived:none-at-missing", one, f"{route} of {v!r}: tolist {tl!r} vs is_na {fl}")
+                return
+            bad = [t for t in tl if (isinstance(t, float) and t != t) or (isinstance(t, (np.datetime64, np.timedelta64)) and np.isnat(t))]
+            if bad:
+                rec.violation(route, "derived:missing-marker-in-tolist", one, f"{route} of {v!r}: tolist {tl!r} holds a NaN / NaT that is_na does not flag")
+                return
+            w = Vector(tl, d.dtype)
+            if not w.equal(d):
+                rec.violation(route, "derived:rebuild-not-equal", one, f"{route} of {v!r} = {d!r}: Vector({tl!r}, {d.dtype}) = {w!r} is not equal to it")
+                return
+            if not d.equal(d):
+                rec.violation(route, "derived:reflexive", one, f"{route} of {v!r} = {d!r} is not equal to itself")
+                return
+            dn = d.drop_na()
+            keep = [t for t, f in zip(tl, fl) if not f]
+            if str(dn.dtype) != str(d.dtype) or not V.same_cells(dn.tolist(), keep) or any(flagged(dn)):
+                rec.violation(route, "derived:drop_na", one, f"{route} of {v!r} = {d!r}: drop_na {dn!r} expected {keep!r}")
+                return
+            if not (d.is_datetime() and np.datetime_data(d.dtype)[0] == "generic"):
+                r = replacement_for(d)
+                rn = d.replace_na(r)
+                if str(rn.dtype) != str(d.dtype) or any(flagged(rn)) or any(not fl[i] and not V.same_value(rn.tolist()[i], tl[i]) for i in range(len(tl))):
+                    rec.violation(route, "derived:replace_na", one, f"{route} of {v!r} = {d!r}: replace_na({r!r}) gave {rn!r}")
+                    return
+        except Exception as e:
+            rec.violation(route, "derived:raised", one, f"{route} of {v!r}: {type(e).__name__}: {e}")
+            return
+        rec.outcome(("derived", route, str(d.dtype), tuple(fl)))
+
+
 def homogeneity(names):
     fams = {FAMILY[x] for x in names if x not in MISSING}
     has_missing = any(x in MISSING for x in names)
@@ -436,6 +507,8 @@ def check_case(case, rec):
     if out is not None:
         rec.state(("vec", str(v.dtype), tuple(V.tok(x) for x in V.cells(v))))
         rec.outcome(out)
+        if len(names) <= DERIVED_MAXLEN and not any(x is ALOOF for x in seq):
+            derived_laws(v, case, rec)
     rec.sample(case)
 
 
